@@ -307,6 +307,12 @@ def core3_correspondence(chk, rng, n, dialects=("cl21",), features=None, label="
                         # C01-F10 under the strict dialect: the let variable the evaluator loses is reported unbound;
                         # the program is rejected (outside the property's quantifier); counted
                         chk.count(f"{label}:{d}:impl-rejects-defconst-let-unbound")
+                    elif any((nm + "_$_") in b for nm in compilers.defconst_let_names(p["tree"])):
+                        # C01-F10 again: the renamed NAME of a let variable bound inside a defconst body takes the
+                        # variable's place during compile-time evaluation and an operator of the body fails on it
+                        # ("Cons expected for rest, got (V47_$_115)"): the program is rejected (outside the property's
+                        # quantifier), the message names the leaked variable; counted
+                        chk.count(f"{label}:{d}:impl-rejects-defconst-let-name-in-error")
                     else:
                         chk.fail("correspondence", "corr:core3-impl-rejects", {"dialect": d, "program": p["text"]}, b[:200])
                 continue
